@@ -318,6 +318,31 @@ def catalogue():
 
     add("MolGrid()", ["MolGrid"], margs, lambda a: mol_direct(a, BeckeWeights()), family="mol")
     add("MolGrid(aim array)", ["MolGrid"], lambda: dict(margs(), aim=np.linspace(0.1, 1.0, 2 * 8 * 18)), lambda a: mol_direct(a, a["aim"]))
+    # weights that contain non-finite entries (0/0 far from every atom) are still the caller's array
+    def nan_aim():
+        w = np.linspace(0.1, 1.0, 2 * 8 * 18)
+        w[::7] = np.nan
+        return w
+
+    add("MolGrid(aim array with nan)", ["MolGrid"], lambda: dict(margs(), aim=nan_aim()), lambda a: mol_direct(a, a["aim"]).size)
+    _nan_cache = {}
+
+    def nan_callable(points, atcoords, atnums, indices):
+        key = len(points)
+        if key not in _nan_cache:
+            w = np.linspace(0.1, 1.0, key)
+            w[::5] = np.nan
+            _nan_cache[key] = w
+        return _nan_cache[key]
+
+    def mol_nan_callable(a):
+        g = mol_direct(a, nan_callable)
+        kept = next(iter(_nan_cache.values()))
+        if not np.isnan(kept[0]):
+            raise AssertionError("the array returned by the aim_weights callable was modified (nan entries overwritten)")
+        return g.size
+
+    add("MolGrid(aim callable returning a kept array with nan)", ["MolGrid"], margs, mol_nan_callable)
     add("MolGrid(aim callable)", ["MolGrid"], margs, lambda a: mol_direct(a, a["cb"]), callbacks=[("cb", "aim")])
     add("MolGrid.from_size", ["MolGrid.from_size"], margs, lambda a: MolGrid.from_size(a["atnums"], a["atcoords"], 26, rgrid=a["rg"], rotate=3), family="mol")
     add("MolGrid.from_preset", ["MolGrid.from_preset"], margs,
